@@ -634,6 +634,7 @@ func (d *Driver) restart(st *Step) {
 			w.authMux.Stop()
 			w.authMux = nil
 		}
+		d.O.noteAuthRestart()
 		if err := w.BootAuth(); err != nil {
 			w.Log.Note("auth restart failed: %v", err)
 		}
